@@ -181,11 +181,18 @@ fn resolve_renamed(
 ) -> Option<String> {
     let name_map = serde_renamed.get(id)?;
 
-    // Find in imports.
+    // Find in imports. The set has no order of its own: when several imported crates
+    // rename this type, take the first crate by name so every run resolves it alike.
     import_types
         .iter()
         .filter(|i| i.type_name == id)
-        .find_map(|import_ref| name_map.get(&import_ref.base_crate))
+        .filter_map(|import_ref| {
+            name_map
+                .get(&import_ref.base_crate)
+                .map(|name| (&import_ref.base_crate, name))
+        })
+        .min_by_key(|(base_crate, _)| *base_crate)
+        .map(|(_, name)| name)
         // Fallback to looking up in our current namespace.
         .or_else(|| name_map.get(crate_name))
         .map(ToOwned::to_owned)
